@@ -842,17 +842,17 @@ theorem bracketed_hostText (s : List UInt16) : HostText (91 :: (showIpv6 s ++ [9
 /-- `Host::parse` of the bracketed text `HttpClient::new` builds for an IPv6 address: that address -/
 theorem parseHost_bracketed (idna : Bytes → Option Bytes) (s0 s1 s2 s3 s4 s5 s6 s7 : UInt16) :
     parseHost idna (91 :: (showIpv6 [s0, s1, s2, s3, s4, s5, s6, s7] ++ [93]))
-      = some (.ipv6 [s0.toNat, s1.toNat, s2.toNat, s3.toNat, s4.toNat, s5.toNat, s6.toNat, s7.toNat]) := by
+      = .ok (.ipv6 [s0.toNat, s1.toNat, s2.toNat, s3.toNat, s4.toNat, s5.toNat, s6.toNat, s7.toNat]) := by
   simp only [parseHost]
   have hlast : (91 :: (showIpv6 [s0, s1, s2, s3, s4, s5, s6, s7] ++ [93])).getLast? = some 93 := by
     rw [show (91 :: (showIpv6 [s0, s1, s2, s3, s4, s5, s6, s7] ++ [93])) = (91 :: showIpv6 [s0, s1, s2, s3, s4, s5, s6, s7]) ++ [93] from rfl]
     exact List.getLast?_concat ..
-  simp only [hlast, bne_self_eq_false, Bool.false_eq_true, if_false, List.dropLast_concat, parseIpv6_showIpv6, Option.map_some]
+  simp only [hlast, bne_self_eq_false, Bool.false_eq_true, if_false, List.dropLast_concat, parseIpv6_showIpv6]
 
 /-- the `Host` header text of an IPv6 host (`[` + `write_ipv6` + `]`) denotes that address: parsed as a host it is the address again -/
 theorem parseHost_writeIpv6 (idna : Bytes → Option Bytes) (s0 s1 s2 s3 s4 s5 s6 s7 : UInt16) :
     parseHost idna ((Host.ipv6 [s0.toNat, s1.toNat, s2.toNat, s3.toNat, s4.toNat, s5.toNat, s6.toNat, s7.toNat]).text)
-      = some (.ipv6 [s0.toNat, s1.toNat, s2.toNat, s3.toNat, s4.toNat, s5.toNat, s6.toNat, s7.toNat]) := by
+      = .ok (.ipv6 [s0.toNat, s1.toNat, s2.toNat, s3.toNat, s4.toNat, s5.toNat, s6.toNat, s7.toNat]) := by
   have hw := writeIpv6_eq_generic [s0, s1, s2, s3, s4, s5, s6, s7] rfl
   simp only [List.map_cons, List.map_nil] at hw
   have ht : (Host.ipv6 [s0.toNat, s1.toNat, s2.toNat, s3.toNat, s4.toNat, s5.toNat, s6.toNat, s7.toNat]).text
@@ -865,6 +865,6 @@ theorem parseHost_writeIpv6 (idna : Bytes → Option Bytes) (s0 s1 s2 s3 s4 s5 s
     exact List.getLast?_concat ..
   have := parseIpv6_generic [s0, s1, s2, s3, s4, s5, s6, s7] rfl
   simp only [List.map_cons, List.map_nil] at this
-  simp only [hlast, bne_self_eq_false, Bool.false_eq_true, if_false, List.dropLast_concat, this, Option.map_some]
+  simp only [hlast, bne_self_eq_false, Bool.false_eq_true, if_false, List.dropLast_concat, this]
 
 end Gd.Http
